@@ -87,8 +87,7 @@ def prefixes(tier):
     active = ['bounds', 'tighten', 'edits', 'has_non_zero_cost']
     out += [list(p) for p in itertools.product(active, repeat=3)]
     if tier != 'quick':
-        out += [list(p) for p in itertools.product(OPS, repeat=3) if list(p) not in out]
-        out += [list(p) for p in itertools.product(active, repeat=4)]
+        out += [list(p) for p in itertools.product(['tighten', 'edits', 'bounds'], repeat=4)]
     out.append(['tighten'] * 4)
     out.append(['tighten'] * 5)
     out.append(['tighten'] * 6)
@@ -111,7 +110,8 @@ SHAPES = [
 
 def jobs(tier, seed):
     out = []
-    shapes = SHAPES if tier != 'quick' else [SHAPES[1], SHAPES[2], SHAPES[4], SHAPES[5]]      # LiL, LLs, LD, DL2c
+    shapes = [x for x in SHAPES if x[0] != 'DL2'] if tier != 'quick' else [SHAPES[1], SHAPES[2], SHAPES[4], SHAPES[5]]      # LiL, LLs, LD, DL2c
+    # (DL2 with symbolic keys: ~1.4k paths per prefix, ~100k paths per strategy -- not run; DL2c is its concrete-key version)
     for name, A, B_ in shapes:
         for quiet in (False, True):
             if tier == 'quick' and quiet and not name.startswith(('Li', 'LLs')):
